@@ -8,7 +8,7 @@ from ..loops import dotted
 from ..nf import NF, Scope, Poly, parse_expr
 from ..repo import Repo, loc, short, AnalysisError, positional_params, param_names, bind_call
 from ..resolve import Resolver
-from ..sem import guard_literals, spec as sem_spec, stmt_calls, on_every_path_once, arg_of
+from ..sem import same_ingredients, guard_literals, spec as sem_spec, stmt_calls, on_every_path_once, arg_of
 
 EXPLANATION = (
     "Ownership analysis of the `last sampled batch` field: every write of an attribute is attributed to the class of its receiver "
@@ -399,6 +399,18 @@ def run(ck, repo: Repo, tier: str):
     if isinstance(a, ast.Name):
         ds = cfg.defs_of(ni.id, a.id)
         whole = len(ds) == 1 and ds[0].node == ns.id and ds[0].kind == "assign" and on_every_path_once(cfg, [ni.id])
+        if not whole:
+            # one initialisation per returned slot: `for slot in super().add_sample(..): initialize_priority(slot)`
+            lps = [cfg.nodes[h] for h in cfg.enclosing_loops(ni.id)]
+            for lp_ in lps[:1]:
+                it_ = lp_.ast.iter if lp_.kind == "for" else None
+                if it_ is not None and isinstance(lp_.ast.target, ast.Name) and lp_.ast.target.id == a.id:
+                    src_ok = it_ is cs or (isinstance(it_, ast.Name) and any(d.node == ns.id and d.kind == "assign" for d in cfg.defs_of(lp_.id, it_.id)) and len(cfg.defs_of(lp_.id, it_.id)) == 1)
+                    body_ok = cfg.control_deps(ni.id) and len(cfg.control_deps(ni.id)) == len(cfg.control_deps(lp_.id)) + 1
+                    if src_ok and body_ok:
+                        whole = True
+                    elif src_ok:
+                        raise AnalysisError(f"{RB}SubtrajectoryReplayBufferPER.add_sample: per-slot initialisation is conditional (unrecognised form)")
     elif isinstance(a, ast.Call) and a is cs:
         whole = True
     elif isinstance(a, (ast.Subscript,)):
@@ -522,12 +534,19 @@ def run(ck, repo: Repo, tier: str):
                     else:
                         raise AnalysisError(f"{site}: stratified draws `{U[:100]}` not recognised")
                 ck.ob("R3-sampler-form", site, f"stratified-segments:{tag}", oku, f"U = {U[:110]}", whyu, loc(mi, f))
-        # the indices returned are the ones recorded for update_priority
+        # the indices returned are the ones recorded for update_priority (same value: compared as normal forms through local names)
         rv = retn.ast.value
-        okr = dotted(rv) in (f"self.{field}", f"self.priority.{field}") or (isinstance(rv, ast.Name))
-        rec = [n for n in nf.cfg_of(f).nodes if n.kind == "stmt" and isinstance(n.ast, ast.Assign) and any((dotted(t) or "").endswith("." + field) for t in n.ast.targets)]
-        if isinstance(rv, ast.Name):
-            okr = any(isinstance(n.ast.value, ast.Name) and n.ast.value.id == rv.id for n in rec) or any(any(isinstance(t, ast.Name) and t.id == rv.id for t in n.ast.targets) for n in rec)
+        fcfg = nf.cfg_of(f)
+        rec = [n for n in fcfg.nodes if n.kind == "stmt" and isinstance(n.ast, ast.Assign) and any((dotted(t) or "").endswith("." + field) for t in n.ast.targets)]
+        okr = dotted(rv) in (f"self.{field}", f"self.priority.{field}")
+        if not okr and rec:
+            fsc = Scope(fcfg, mi, {}, site)
+            fsc.inline_self_attrs = False
+            got_r = nf.poly(rv, fsc, retn.id)
+            recs = [nf.poly(n.ast.value, fsc, n.id) for n in rec]
+            okr = any(got_r == r_ for r_ in recs) or got_r.canon() in (f"self.{field}", f"self.priority.{field}")
+            if not okr and not any(same_ingredients(got_r, r_) for r_ in recs):
+                raise AnalysisError(f"{site}: returned indices `{got_r.canon()[:80]}` cannot be related to the recorded ones (unrecognised form)")
         ck.ob("R3-sampler-form", site, "returns-recorded-indices", okr and len(rec) >= 1, f"return {short(rv)}; recorded by {[short(n.ast, 50) for n in rec]}", "" if okr and rec else "the indices returned must be the ones recorded for update_priority", loc(mi, f))
 
     # ---- R4 bookkeeping ---------------------------------------------------------------------------------------------------
